@@ -82,6 +82,13 @@ def gen(tier, rng):
         [f"F:-:{hexs('f@x.y')}", f"F:-:{hexs('g@x.y')}", f"T:-:{hexs('t@x.y')}"],
         [f"F:-:{hexs('f@x.y')}", f"F:-:{hexs('g@x.y')}", f"S:-:{hexs('s@x.y')}", f"T:-:{hexs('t@x.y')}"])]
     cases += mboxgen.build_cases(rng, {"quick": 300, "search": 1000, "thorough": 5000}[tier])
+    # every way of finishing a message: a raw body (also an empty one) has no MIME-Version, a MIME body exactly one; the header
+    # section ends with an empty line in every case
+    for fin in "xesmh":
+        for pre in ([f"F:-:{hexs('f@x.y')}", f"T:-:{hexs('t@x.y')}"], [f"F:{hexs('Né')}:{hexs('f@x.y')}", f"C:-:{hexs('t@x.y')}", "D"],
+                    [f"S:-:{hexs('s@x.y')}", f"F:-:{hexs('f@x.y')}", f"F:-:{hexs('g@x.y')}", f"B:-:{hexs('t@x.y')}"],
+                    [f"T:-:{hexs('t@x.y')}"], [f"F:-:{hexs('f@x.y')}", f"T:-:{hexs('t@x.y')}", f"E:-:{hexs('o@x.y')}"]):
+            cases.append("build\t" + ",".join(pre + [f"Z:{fin}"]))
     # mailbox headers on the wire: one mailbox under every header kind, and lists of 1..50 mailboxes (folding, the 998 limit)
     cases += mboxgen.mbox_cases(rng, {"quick": 200, "search": 600, "thorough": 3000}[tier])
     cases += mboxgen.list_cases(rng, {"quick": 300, "search": 1000, "thorough": 5000}[tier])
